@@ -199,6 +199,8 @@ def check_contract(rec):
     bad = []
     for (pid, text), r in rec.searches.items():
         if r is None:
+            if pid == "PPostShort":
+                bad.append((pid, text, "POST_SHORT_CITATION_REGEX did not match (it matches the empty string)"))
             continue
         if not (0 <= r["start"] <= r["end"] <= len(text)):
             bad.append((pid, text, "match span outside the window"))
@@ -209,8 +211,38 @@ def check_contract(rec):
             bad.append((pid, text, "forward match does not start at 0"))
         if pid in ("PPreFull", "PShortAnte", "PSupraAnte") and r["end"] != len(text):
             bad.append((pid, text, "backward match does not end at the end of the window"))
-        if pid in ("PPostFull", "PPostShort", "PPostJournal") and r["groups"].get("pin_cite") and r["groups"]["pin_cite"][0] != 0:
+        if pid in ("PPostFull", "PPostShort", "PPostJournal", "PPostLaw") and r["groups"].get("pin_cite") and r["groups"]["pin_cite"][0] != 0:
             bad.append((pid, text, "pin_cite group does not start at offset 0"))
+        if pid == "PPostFull" and r["groups"].get("parenthetical"):
+            a, b = r["groups"]["parenthetical"]
+            if not b < r["end"]:
+                bad.append((pid, text, "parenthetical group is not followed by its closing parenthesis"))
+            for k, sp in r["groups"].items():
+                if k != "parenthetical" and sp is not None and sp[1] > a:
+                    bad.append((pid, text, f"group {k} ends after the parenthetical group starts"))
+        if pid == "PShortAnte" and not r["groups"].get("antecedent"):
+            bad.append((pid, text, "short-form antecedent pattern matched without its antecedent group"))
+    return bad
+
+
+def check_tokens(words):
+    """tok_ok: the regex facts about special tokens that the pipeline theorems assume"""
+    bad = []
+    for w in words:
+        if isinstance(w, str):
+            continue
+        name = type(w).__name__
+        if name == "CitationToken":
+            if w.short:
+                pg = w.groups.get("page")
+                if pg is None or not str(w).endswith(pg):
+                    bad.append((str(w), "short-form citation token does not end with its page group"))
+            else:
+                eds = list(w.exact_editions) or list(w.variation_editions)
+                if not any(e.reporter.source in SRC for e in eds):
+                    bad.append((str(w), "citation token without an edition from a known source"))
+        elif name == "StopWordToken" and "stop_word" not in w.groups:
+            bad.append((str(w), "stop-word token without the stop_word group"))
     return bad
 
 
